@@ -22,6 +22,7 @@ ASSUMPTIONS = [
     "float()/int() of numeric strings is not modelled (generated strings are non-numeric); float() of ints is exact below 2**53",
     "store.w keys are tuples of str (keys that differ only by type collapse under str() and are excluded); store values are floats or small ints",
     "json.loads(json.dumps(v)) == v for JSON-shaped v (CPython float repr round-trip), and json.dumps is a function of the ordered value",
+    "atomic-write temporaries have the shape <final>.<8 chars without '.'> (isAtomicTemp) — decided by Lean on every name the real _make_tmp / a writer killed at os.replace leaves behind",
     "snapshot file names: str.isdigit is modelled on ASCII digits; os.path.getmtime does not fail; the listing order is os.listdir's (passed to the model)",
     "the write→load→write fixpoint is claimed for str version_etag and a dict-or-absent graph.meta (a truthy non-dict meta takes the writer's fallback branch; negation witness C06_fixpoint_needs_meta_dict)",
     "weight carrier laws (Clem.Snap.WLaws: round idempotent / finite-preserving / constant between x and round x / monotone at the bounds, abs monotone) hold for IEEE doubles with CPython round(x, 6); monitored on the real round on every run",
@@ -43,8 +44,6 @@ CLAIM = {
     "technique": "Lean 4 structural/inductive proofs about an executable ordered-JSON model + exact differential execution against write_snapshot/load_latest_snapshot/_pick_latest_snapshot_path",
     "design_ref": "DESIGN.md §4 C06",
 }
-DRIVER_MODULES = ['HSnap']
-TABLES = []
 MODELLED = {
     "clematis/engine/snapshot.py": [
         "_pick_latest_snapshot_path", "_graph_bounds_from_cfg", "_round6", "_clamp", "_edge_id",
@@ -52,6 +51,7 @@ MODELLED = {
         "_import_store_from_snapshot", "write_snapshot", "load_latest_snapshot", "_write_sidecar_meta",
         "_set_state_field", "_snapshot_path",
     ],
+    "clematis/io/atomic.py": ["_make_tmp"],
 }
 TRUSTED = ["modelled, not verified: CPython dict insertion order, json.dumps/json.loads, round(x, 6) (bit-exact reimplementation in Lean, "
            "cross-checked on every run), os.listdir/getmtime, tempfile naming of atomic-write temporaries"]
@@ -1155,6 +1155,153 @@ class PickComp(Wrapped):
             yield {"files": fs[:i] + fs[i + 1:]}
 
 
+
+# --------------------------------------------------------------------------
+# component 4b: discovery against the temporaries the REAL atomic writer leaves behind
+# --------------------------------------------------------------------------
+
+class _Crash(BaseException):
+    """Writer dies between writing the temp body and os.replace (not an Exception: nothing catches it)."""
+
+
+class TempComp(Wrapped):
+    name = "snap.temps"
+    budget = {"quick": 150, "thorough": 2500, "search": 1500}
+
+    def gen_raw(self, rng, i):
+        return {"agent": rng.choice(["A", "agent", "é_1", "x.y", "B"]),
+                "committed": rng.random() < 0.8,
+                "make_tmp": rng.choice([0, 1, 1, 2]),          # orphans made by the real _make_tmp per final name
+                "tmp_sidecar": rng.random() < 0.5,
+                "crash_writes": rng.choice([0, 1, 1, 2]),      # real write_snapshot runs killed at os.replace
+                "other_agent": rng.random() < 0.3,            # an older committed snapshot of another agent
+                "orphan_body": rng.choice(["full", "full", "mini", "garbage"])}
+
+    def impl_raw(self, case):
+        from pathlib import Path
+        from clematis.engine.snapshot import write_snapshot, load_latest_snapshot, _pick_latest_snapshot_path
+        from clematis.io import atomic as A
+        d = _mkdtemp("temps_")
+        try:
+            with _Env():
+                ctx = NS(turn_id=1, agent_id=case["agent"], cfg={"t4": {"snapshot_dir": d}})
+                mt = {}
+
+                def touch(name, t):
+                    os.utime(os.path.join(d, name), ns=(t * 10 ** 9, t * 10 ** 9))
+                    mt[name] = t
+                st = _State()
+                st.store = None
+                st.graph = {"nodes": {"a": {"id": "a"}}, "edges": [{"src": "a", "dst": "b", "weight": 0.25}]}
+                final = f"state_{case['agent']}.json"
+                if case["other_agent"]:
+                    write_snapshot(NS(turn_id=0, agent_id="zz_other", cfg=ctx.cfg), st, "v_other", 0, [])
+                    for n in os.listdir(d):
+                        touch(n, 500)
+                if case["committed"]:
+                    write_snapshot(ctx, st, "v_committed", 0, [])
+                    touch(final, 1000)
+                    touch(final + ".meta", 1000)
+                before = set(os.listdir(d))
+                # (a) the real temp-name factory
+                finals = [final] + ([final + ".meta"] if case["tmp_sidecar"] else [])
+                for _ in range(case["make_tmp"]):
+                    for fn in finals:
+                        tp = A._make_tmp(Path(d) / fn)
+                        body = {"full": json.dumps({"version_etag": "v_uncommitted", "schema_version": "v1", "gel": {"nodes": {}, "edges": {}}}),
+                                "mini": json.dumps({"version_etag": "v_uncommitted"}), "garbage": "{\"version_etag\": \"v_unc"}[case["orphan_body"]]
+                        Path(tp).write_text(body, encoding="utf-8")
+                # (b) the real writer, killed at os.replace
+                real_replace = os.replace
+
+                def dying_replace(src, dst, *a, **k):
+                    if os.path.dirname(os.path.abspath(str(dst))) == os.path.abspath(d):
+                        raise _Crash()
+                    return real_replace(src, dst, *a, **k)
+                crashed = 0
+                for _ in range(case["crash_writes"]):
+                    os.replace = dying_replace
+                    try:
+                        write_snapshot(ctx, st, "v_uncommitted", 1, [])
+                    except _Crash:
+                        crashed += 1
+                    finally:
+                        os.replace = real_replace
+                temps = sorted(set(os.listdir(d)) - before)
+                for n in temps:
+                    touch(n, 3000)
+                order = os.listdir(d)
+                case["listing"] = [[n, int(mt.get(n, 0))] for n in order]
+                p = _pick_latest_snapshot_path(d)
+                fresh = _State()
+                fresh.store = None
+                ret = load_latest_snapshot(ctx, fresh)
+                return {"temps": temps, "crashed": crashed, "names": sorted(order),
+                        "picked": None if p is None else os.path.basename(p),
+                        "load_path": None if ret["path"] is None else os.path.basename(ret["path"]),
+                        "load_ver": ret["version_etag"], "loaded": ret["loaded"],
+                        "state_ver": getattr(fresh, "version_etag", None)}
+        finally:
+            shutil.rmtree(d, ignore_errors=True)
+
+    def request_raw(self, case):
+        return {"c": "snap.pick", "listing": [[cps(n), m] for n, m in case.get("listing", [])]}
+
+    def compare_raw(self, case, io, mo):
+        if isinstance(io, dict) and "__raised__" in io:
+            return f"implementation raised {io}"
+        exp = None if mo is None else uncps(mo)
+        if io["picked"] != exp:
+            return f"picked impl={io['picked']!r} model={exp!r}"
+        return None
+
+    def monitors_raw(self, case, io):
+        final = f"state_{case['agent']}.json"
+        res = [("crash_leaves_orphan_temp", io["crashed"] == case["crash_writes"]
+                and len(io["temps"]) >= case["crash_writes"] + case["make_tmp"] * (2 if case["tmp_sidecar"] else 1),
+                f"crashed={io['crashed']} temps={io['temps']}"),
+               ("pick_never_a_real_temp", io["picked"] not in io["temps"] and io["load_path"] not in io["temps"],
+                f"picked {io['picked']!r} / loaded {io['load_path']!r}; temps produced by the real writer: {io['temps']}")]
+        if case["committed"]:
+            res.append(("loaded_version_is_the_committed_one",
+                        io["picked"] == final and io["load_ver"] == "v_committed" and io["state_ver"] == "v_committed",
+                        f"picked {io['picked']!r}, returned {io['load_ver']!r}, state.version_etag {io['state_ver']!r}"))
+        elif case["other_agent"]:
+            res.append(("loaded_version_is_a_committed_one", io["load_ver"] == "v_other" and io["state_ver"] == "v_other",
+                        f"returned {io['load_ver']!r}"))
+        else:
+            res.append(("nothing_committed_nothing_loaded",
+                        io["picked"] is None and io["loaded"] is False and io["state_ver"] is None,
+                        f"picked {io['picked']!r} loaded={io['loaded']} version {io['state_ver']!r}"))
+        return res
+
+    def monitor_requests_raw(self, case, io):
+        rq = [("lean.pick_ok", {"c": "snap.mon", "k": "pick", "listing": [[cps(n), m] for n, m in case.get("listing", [])],
+                                "picked": None if io["picked"] is None else cps(io["picked"])})]
+        if io["temps"]:
+            rq.append(("lean.real_temps_have_temp_shape", {"c": "snap.mon", "k": "tempshape", "names": [cps(n) for n in io["temps"]]}))
+        return rq
+
+    def tags_raw(self, case, io):
+        t = set()
+        if io["temps"]:
+            t.add("orphan_temps")
+        if io["crashed"]:
+            t.add("writer_killed_at_replace")
+        if any(n.endswith(".meta") or ".meta." in n for n in io["temps"]):
+            t.add("sidecar_temp")
+        t.add("committed" if case["committed"] else ("only_other_agent" if case["other_agent"] else "nothing_committed"))
+        return sorted(t)
+
+    def shrink_raw(self, case):
+        for k, v in (("make_tmp", 0), ("crash_writes", 0), ("tmp_sidecar", False), ("other_agent", False)):
+            if case[k] != v:
+                yield dict(case, **{k: v})
+        if case["crash_writes"] > 1:
+            yield dict(case, crash_writes=1)
+        if case["make_tmp"] > 1:
+            yield dict(case, make_tmp=1)
+
 # --------------------------------------------------------------------------
 # component 5: round(x, 6) — bit-exact reimplementation and the assumed laws
 # --------------------------------------------------------------------------
@@ -1224,7 +1371,7 @@ class RoundComp(Wrapped):
         return ["batch"]
 
 
-COMPONENTS = [ChainComp(), SanitizeComp(), LoadComp(), PickComp(), RoundComp()]
+COMPONENTS = [ChainComp(), SanitizeComp(), LoadComp(), PickComp(), TempComp(), RoundComp()]
 
 
 def _setup(ctx: Ctx) -> None:
